@@ -123,9 +123,9 @@ def run_monitor(wd, replay=False):
 def signature(v):
     sig = f"{v['rule']}:{v['router']}:{v['op']}"
     a = v.get("args", {})
-    if v["rule"] == "C15.subject.type":
+    if v["rule"] in ("C15.subject.type", "C08.exchange.subject"):
         sig += f":{a['subj']['kind']}-declared-{a['subj']['declared']}"
-    if v["rule"] == "C15.actor.type":
+    if v["rule"] in ("C15.actor.type", "C08.exchange.actor"):
         sig += f":{a['actor']['kind']}-declared-{a['actor']['declared']}"
     return sig
 
